@@ -1006,6 +1006,14 @@ impl Parser {
             result.op = Some(Op::negate(op));
         }
 
+        // De Morgan: not (a and b) = not a or not b, not (a or b) = not a and not b
+        if let Some(logical_op) = &expr.logical_op {
+            result.logical_op = Some(match logical_op {
+                LogicalOp::And => LogicalOp::Or,
+                LogicalOp::Or => LogicalOp::And,
+            });
+        }
+
         if let Some(right) = &expr.right {
             result.right = Some(Box::from(Self::negate_expr_op(right)));
         }
